@@ -781,3 +781,69 @@ Proof.
     + intros Ea Hr Hw. destruct (core_wrote_add _ _ _ _ Hc I0 Ea) as [_ X]. exact (X Hr Hw).
     + intros Ea Hw. destruct (core_wrote_add _ _ _ _ Hc I0 Ea) as [[X|(X1 & X2 & _)] _]; [left; congruence | right; exact X2].
 Qed.
+
+(* ---- the invariant of the whole system, along runs that stay inside the envelope ---- *)
+Definition GI3 (st : mstate) : Prop :=
+  let '(ms, ts) := st in
+  ms_bad ms = true \/
+  (ms_chk ms = false /\ MW ms /\ Forall (T3 ms) ts /\
+   (forall j t, nth_error ts j = Some t -> m_isadd t = true -> m_wrote t = true -> reg_phase t = true ->
+      ~ In (m_k t) (ms_list ms)) /\
+   (forall i j ti tj, nth_error ts i = Some ti -> nth_error ts j = Some tj -> i <> j ->
+      m_isadd ti = true -> m_isadd tj = true -> m_wrote ti = true -> m_wrote tj = true -> m_k ti <> m_k tj)).
+
+Theorem GI3_step st i : GI3 st -> GI3 (mstep st i).
+Proof.
+  destruct st as [ms ts]. intros [B|(C & W & F & U3 & U2)].
+  { pose proof (mstep_frame (ms, ts) i) as (_ & _ & X & _). cbn [fst] in X. destruct (mstep (ms, ts) i) as [ms' ts']. left. exact (X B). }
+  unfold mstep. destruct (nth_error ts i) as [t0|] eqn:Hn; [|right; exact (conj C (conj W (conj F (conj U3 U2))))].
+  pose proof (nth_error_Forall _ _ _ _ F Hn) as I0.
+  unfold mstep_thread. destruct (mstep_core ms t0) as [ms1 t1] eqn:Hc. cbn [fst snd].
+  destruct (thread_step3 _ _ _ _ W I0 Hc) as [B1|(C1 & B1 & I1 & G & S1 & E1 & E2 & LO & FO & DO)].
+  { left. cbn. exact B1. }
+  destruct (ms_bad ms1) eqn:Eb; [left; cbn; exact Eb|]. right.
+  rewrite LO, FO, DO. cbn [andb negb]. rewrite set_chk_false.
+  pose proof G as [N CM]. pose proof W as (W1 & W2 & W3 & W4 & W5). destruct S1 as (S1 & S4 & S5).
+  pose proof (core_list _ _ _ _ Hc) as CL.
+  destruct (thread_reg _ _ _ _ I0 Hc) as (LNK & REG2 & REG3).
+  split; [congruence|]. split; [|split; [|split]].
+  - (* MW *)
+    unfold MW. split; [exact S1|]. split; [|split; [|split; [exact S4|exact S5]]].
+    + intros j Hj. rewrite N. destruct CL as [CL | (Hp & CL)]; rewrite CL in Hj.
+      * destruct (W2 j Hj). auto.
+      * destruct Hj as [<-|Hj]; [|destruct (W2 j Hj); auto].
+        destruct (LNK Hp) as (Ea & Hw & _). destruct (T3_wrote_claimed _ _ I0 Ea Hw). auto.
+    + destruct CL as [-> | (Hp & ->)]; [exact W3|]. constructor; [|exact W3].
+      destruct (LNK Hp) as (Ea & Hw & Hr). exact (U3 i t0 Hn Ea Hw Hr).
+  - apply Forall_upd; [|exact I1]. apply Forall_forall. intros x Hx. apply (T3_mono ms); [exact G|].
+    rewrite Forall_forall in F. apply F. exact Hx.
+  - (* a linker's counter is not on the list *)
+    intros j t Hj Ea Hw Hr. destruct (Nat.eq_dec i j) as [<-|Nij].
+    + rewrite (nth_error_upd_same _ _ _ _ Hn) in Hj. injection Hj as <-.
+      assert (Ea0 : m_isadd t0 = true) by congruence.
+      destruct (REG2 Ea0 Hr Hw) as [(R0 & W0 & Lk)|(Cf & Ll)].
+      * rewrite E2. destruct CL as [-> | (Hp & _)]; [|rewrite (Lk Hp)]; exact (U3 i t0 Hn Ea0 W0 R0).
+      * rewrite E2, Ll. intros Hin. destruct (W2 _ Hin). congruence.
+    + rewrite nth_error_upd_other in Hj by exact Nij.
+      destruct CL as [-> | (Hp & ->)]; [exact (U3 j t Hj Ea Hw Hr)|].
+      intros [Hin|Hin]; [|exact (U3 j t Hj Ea Hw Hr Hin)].
+      destruct (LNK Hp) as (Ea0 & Hw0 & _). exact (U2 i j t0 t Hn Hj Nij Ea0 Ea Hw0 Hw Hin).
+  - (* one claimer per counter *)
+    assert (KEY : forall j tj, nth_error ts j = Some tj -> i <> j -> m_isadd t1 = true -> m_isadd tj = true ->
+                  m_wrote t1 = true -> m_wrote tj = true -> m_k t1 <> m_k tj).
+    { intros j tj Hj Nij Ea1 Eaj Hw1 Hwj. assert (Ea0 : m_isadd t0 = true) by congruence.
+      destruct (REG3 Ea0 Hw1) as [X|X].
+      - rewrite E2. apply (U2 i j t0 tj Hn Hj Nij Ea0 Eaj); congruence.
+      - rewrite E2. intros Heq. rewrite Forall_forall in F.
+        destruct (T3_wrote_claimed ms tj (F tj (nth_error_In _ _ Hj)) Eaj Hwj). congruence. }
+    intros a b ta tb Ha Hb Nab Eaa Eab Hwa Hwb.
+    destruct (Nat.eq_dec i a) as [<-|Nia]; destruct (Nat.eq_dec i b) as [<-|Nib]; try congruence.
+    + rewrite (nth_error_upd_same _ _ _ _ Hn) in Ha. injection Ha as <-. rewrite nth_error_upd_other in Hb by exact Nib.
+      exact (KEY b tb Hb Nib Eaa Eab Hwa Hwb).
+    + rewrite (nth_error_upd_same _ _ _ _ Hn) in Hb. injection Hb as <-. rewrite nth_error_upd_other in Ha by exact Nia.
+      intros Heq. exact (KEY a ta Ha Nia Eab Eaa Hwb Hwa (eq_sym Heq)).
+    + rewrite nth_error_upd_other in Ha, Hb by assumption. exact (U2 a b ta tb Ha Hb Nab Eaa Eab Hwa Hwb).
+Qed.
+
+Lemma GI3_run sched : forall st, GI3 st -> GI3 (mrun sched st).
+Proof. induction sched as [|i sched IH]; intros st G; [exact G|]. cbn [mrun fold_left]. apply IH. apply GI3_step. exact G. Qed.
